@@ -168,11 +168,20 @@ func c12Server(fm jsonrpc.MethodNameFormatter, ref func(ns, m string) string, al
 	return rpc, h, table
 }
 
+// rawCall sends one request straight into the server's HTTP handler; a request that is not answered within
+// the grace period is reported with code -999.
 func rawCall(rpc *jsonrpc.RPCServer, method string, params string) (code int, result string, raw string) {
 	mb, _ := json.Marshal(method)
 	body := fmt.Sprintf(`{"jsonrpc":"2.0","id":1,"method":%s,"params":%s}`, mb, params)
 	rec := httptest.NewRecorder()
-	rpc.ServeHTTP(rec, httptest.NewRequest("POST", "/", strings.NewReader(body)))
+	served := make(chan struct{})
+	go func() {
+		rpc.ServeHTTP(rec, httptest.NewRequest("POST", "/", strings.NewReader(body)))
+		close(served)
+	}()
+	if !core.WaitCh(served, core.Grace) {
+		return -999, "", "(no reply: the request is still being served)"
+	}
 	var resp struct {
 		Result json.RawMessage `json:"result"`
 		Error  *struct {
@@ -243,6 +252,10 @@ func c12Judge(r *core.R, rpc *jsonrpc.RPCServer, h *hit, table map[string][]stri
 	code, result, raw := rawCall(rpc, s, "[]")
 	ran := diff(before, h.snap())
 	r.Obs("requests", 1)
+	if code == -999 {
+		r.Violate("dispatch-hang", "%s: the request was never answered", label)
+		return
+	}
 	var acceptable []string
 	mayNotFound := false
 	if direct, ok := table[s]; ok {
@@ -313,7 +326,13 @@ func (c12) dynamic(sc core.Scenario, r *core.R) {
 		{"alias short re-pointed to C.M", func() { rpc.AliasMethod("short", fm.ref("C", "M")); aliases["short"] = fm.ref("C", "M") }},
 	}
 	for _, st := range steps {
-		st.do()
+		st := st
+		did := make(chan struct{})
+		go func() { st.do(); close(did) }()
+		if !core.WaitCh(did, core.Grace) {
+			r.Violate("dispatch-hang", "formatter=%s: changing the dispatch table of a server that has answered requests (%s) never returned", fm.name, st.name)
+			break
+		}
 		probe(st.name)
 	}
 	r.Key(fmt.Sprintf("dynamic %s aliases#%d", fm.name, sc.I("alias")), true)
